@@ -192,6 +192,12 @@ def hand_formulas(name):
         add("mexpr-nullable", EX("<A>", "x", SMT(A("=", V("r"), S(""))), mexpr=M(MCH("a"), MNT("<A>", "r"))))
         add("mexpr-nullable", FA("<start>", "s", SMT(A("=", V("b"), S("b"))), mexpr=M(MNT("<A>"), MNT("<B>", "b"))))
         add("count", COUNT("start", "<A>", 2))
+        # match expressions whose text leaves out a nonterminal that derives the empty string
+        add("mexpr-elided-nullable", FA("<start>", "s", SMT(A("=", V("x"), S("a"))), mexpr=M(MNT("<A>", "x"))))
+        add("mexpr-elided-nullable", EX("<start>", "s", SMT(A("=", A("str.len", V("x")), I(0))), mexpr=M(MNT("<A>", "x"))))
+        add("mexpr-elided-nullable", FA("<start>", "s", SMT(A("=", V("y"), S("b"))), mexpr=M(MNT("<B>", "y"))))
+        add("mexpr-elided-nullable", FA("<A>", "y", FALSE, mexpr=M(MCH("a"))))
+        add("mexpr-elided-nullable", EX("<start>", "s", TRUE, mexpr=M(MCH("ab"))))
     if name == "AMBIG":
         add("plain", FA("<A>", "x", EX("<A>", "y", PRED("inside", "x", "y"))))
         add("mexpr-ambiguous", EX("<A>", "x", PRED("before", "l", "r"), mexpr=M(MNT("<A>", "l"), MNT("<A>", "r"))))
